@@ -2,104 +2,14 @@
 //! plus unknown representatives, against the dictionary reference built from the JSON text.
 
 use crate::engine::*;
-use refmodel::likely::{Id, Likely, Triple};
+use refmodel::likely::{Id, Triple};
 use serde_json::{json, Value};
-use std::collections::BTreeMap;
 use unic_langid_impl::likelysubtags;
 use unic_langid_impl::subtags::{Language, Region, Script, Variant};
 use unic_langid_impl::LanguageIdentifier;
 use unic_locale_impl::Locale;
 
-pub type LTriple = (Language, Option<Script>, Option<Region>);
-
-pub struct Universe {
-    pub lk: Likely,
-    pub langs: Vec<Language>,
-    pub scripts: Vec<Option<Script>>,
-    pub regions: Vec<Option<Region>>,
-}
-
-pub fn load_likely(repo: &str) -> Likely {
-    let txt = std::fs::read_to_string(format!("{}/unic-langid-impl/data/likelySubtags.json", repo))
-        .expect("likelySubtags.json");
-    let v: Value = serde_json::from_str(&txt).expect("json");
-    let mut entries = BTreeMap::new();
-    for (k, val) in v["supplemental"]["likelySubtags"].as_object().expect("likelySubtags object") {
-        entries.insert(k.clone(), val.as_str().expect("string value").to_string());
-    }
-    Likely::new(entries, &["xx", "qqqqq"], &["Qaaa"], &["QQ", "999"])
-}
-
-pub fn cldr_version(repo: &str) -> String {
-    let txt = std::fs::read_to_string(format!("{}/unic-langid-impl/data/likelySubtags.json", repo)).unwrap();
-    let v: Value = serde_json::from_str(&txt).unwrap();
-    v["supplemental"]["version"]["_cldrVersion"].as_str().unwrap().to_string()
-}
-
-impl Universe {
-    pub fn new(repo: &str) -> Universe {
-        let lk = load_likely(repo);
-        let langs = lk
-            .langs
-            .iter()
-            .map(|s| if s.is_empty() { Language::default() } else { s.parse().expect("CLDR language parses") })
-            .collect();
-        let scripts = lk
-            .scripts
-            .iter()
-            .map(|s| if s.is_empty() { None } else { Some(s.parse().expect("CLDR script parses")) })
-            .collect();
-        let regions = lk
-            .regions
-            .iter()
-            .map(|s| if s.is_empty() { None } else { Some(s.parse().expect("CLDR region parses")) })
-            .collect();
-        Universe { lk, langs, scripts, regions }
-    }
-    pub fn size(&self) -> u64 {
-        self.langs.len() as u64 * self.scripts.len() as u64 * self.regions.len() as u64
-    }
-    #[inline]
-    pub fn decode(&self, idx: u64) -> Triple {
-        let nr = self.regions.len() as u64;
-        let ns = self.scripts.len() as u64;
-        ((idx / (nr * ns)) as Id, ((idx / nr) % ns) as Id, (idx % nr) as Id)
-    }
-    #[inline]
-    pub fn lib(&self, t: Triple) -> LTriple {
-        (self.langs[t.0 as usize], self.scripts[t.1 as usize], self.regions[t.2 as usize])
-    }
-    pub fn show_lib(t: &Option<LTriple>) -> String {
-        match t {
-            None => "None".into(),
-            Some((l, s, r)) => {
-                let mut x = l.to_string();
-                if let Some(s) = s {
-                    x.push('-');
-                    x.push_str(s.as_str());
-                }
-                if let Some(r) = r {
-                    x.push('-');
-                    x.push_str(r.as_str());
-                }
-                format!("Some({})", x)
-            }
-        }
-    }
-    pub fn show_ref(&self, t: Option<Triple>) -> String {
-        match t {
-            None => "None".into(),
-            Some(t) => format!("Some({})", self.lk.show(t)),
-        }
-    }
-    pub fn describe(&self) -> Value {
-        json!({
-            "languages": self.langs.len(), "scripts": self.scripts.len(), "regions": self.regions.len(),
-            "note": "index 0 of each list = absent; the last 2/1/2 entries are unknown representatives (xx, qqqqq; Qaaa; QQ, 999)",
-            "triples": self.size(), "cldr_entries": self.lk.entries.len(),
-        })
-    }
-}
+pub use super::universe::*;
 
 fn tviol(coll: &Collector, l: &Local, sub: &'static str, class: String, u: &Universe, t: Triple, expected: String, observed: String) {
     coll.push(l.order, Violation { sub, class, case: Case::Text(format!("triple:{}", u.lk.show(t))), expected, observed });
@@ -147,7 +57,9 @@ pub fn check_c06_triple(u: &Universe, t: Triple, l: &mut Local, coll: &Collector
         l.nontrivial += 1;
     }
     if out == exp_lib {
-        l.sample(kind_idx(t) * 2 + out.is_some() as u32, u.lk.show(t).as_bytes(), || format!("maximize -> {}", Universe::show_lib(&out)));
+        if l.wants(kind_idx(t) * 2 + out.is_some() as u32) {
+            l.sample(kind_idx(t) * 2 + out.is_some() as u32, u.lk.show(t).as_bytes(), || format!("maximize -> {}", Universe::show_lib(&out)));
+        }
         return;
     }
     if exp.is_none() {
@@ -164,7 +76,7 @@ pub fn check_c06_triple(u: &Universe, t: Triple, l: &mut Local, coll: &Collector
 }
 
 fn kind_idx(t: Triple) -> u32 {
-    (t.0 != 0) as u32 * 4 + (t.1 != 0) as u32 * 2 + (t.2 != 0) as u32
+    super::likely_kind(t)
 }
 
 fn variants_menu() -> Vec<Vec<Variant>> {
@@ -291,7 +203,9 @@ pub fn check_c07_triple(u: &Universe, t: Triple, l: &mut Local, coll: &Collector
     l.counters[out.is_some() as usize] += 1;
     if let Some(r) = out {
         l.nontrivial += 1;
-        l.sample(kind_idx(t), u.lk.show(t).as_bytes(), || format!("maximize -> {}", Universe::show_lib(&out)));
+        if l.wants(kind_idx(t)) {
+            l.sample(kind_idx(t), u.lk.show(t).as_bytes(), || format!("maximize -> {}", Universe::show_lib(&out)));
+        }
         if (!x.0.is_empty() && r.0 != x.0) || (x.1.is_some() && r.1 != x.1) || (x.2.is_some() && r.2 != x.2) {
             tviol(coll, l, "c07.keeps", format!("maximize changes a given subtag ({})", kind_of(t)), u, t,
                   "given subtags unchanged".into(), Universe::show_lib(&out));
@@ -413,7 +327,9 @@ pub fn check_c08_triple(u: &Universe, t: Triple, l: &mut Local, coll: &Collector
     l.counters[m.is_some() as usize] += 1;
     if let Some(r) = m {
         l.nontrivial += 1;
-        l.sample(kind_idx(t), u.lk.show(t).as_bytes(), || format!("minimize -> {}", Universe::show_lib(&m)));
+        if l.wants(kind_idx(t)) {
+            l.sample(kind_idx(t), u.lk.show(t).as_bytes(), || format!("minimize -> {}", Universe::show_lib(&m)));
+        }
         if full(r) != maxx {
             tviol(coll, l, "c08.meaning", format!("minimize result maximizes to something else ({})", kind_of(t)), u, t,
                   Universe::show_lib(&Some(maxx)), format!("{} which maximizes to {}", Universe::show_lib(&m), Universe::show_lib(&Some(full(r)))));
